@@ -767,42 +767,30 @@ void GridLocalPolynomial::finishConstruction(){ dynamic_values.reset(); }
 
 template<RuleLocal::erule effrule>
 std::vector<int> GridLocalPolynomial::getSubGraph(std::vector<int> const &point) const{
-    std::vector<int> graph, p = point;
-    std::vector<bool> used(points.getNumIndexes(), false);
-    // the semi-local functions at -1 and 1 span the whole domain, each is also a (step) parent of the kid of the other
-    constexpr bool has_step_kid = (effrule == RuleLocal::erule::semilocalp);
-    int max_1d_kids = RuleLocal::getMaxNumKids<effrule>() + ((has_step_kid) ? 1 : 0);
-    int max_kids = max_1d_kids * num_dimensions;
-    auto get_kid = [&](int point1d, int kid_number)->int{
-        if (has_step_kid and kid_number == max_1d_kids - 1)
-            return (point1d == 1) ? 4 : ((point1d == 2) ? 3 : -1); // inverse of getStepParent()
-        return RuleLocal::getKid<effrule>(point1d, kid_number);
+    // all points that descend from point, i.e., in every direction the index of point is reached by following the parents and step-parents
+    // the search goes up from every point of the grid and not down from point, a descendant must be found even when an intermediate point is missing from the grid
+    auto is_ancestor = [](int ancestor, int kid)->bool{
+        std::vector<int> todo(1, kid);
+        while(!todo.empty()){
+            int k = todo.back();
+            todo.pop_back();
+            if (k == ancestor) return true;
+            if (k == -1) continue;
+            todo.push_back(RuleLocal::getParent<effrule>(k));
+            todo.push_back(RuleLocal::getStepParent<effrule>(k));
+        }
+        return false;
     };
 
-    std::vector<int> monkey_count(1, 0), monkey_tail;
-
-    while(monkey_count[0] < max_kids){
-        if (monkey_count.back() < max_kids){
-            int dim = monkey_count.back() / max_1d_kids;
-            monkey_tail.push_back(p[dim]);
-            p[dim] = get_kid(monkey_tail.back(), monkey_count.back() % max_1d_kids);
-            int slot = (p[dim] == -1) ? -1 : points.getSlot(p);
-            if ((slot == -1) || used[slot]){ // this kid is missing
-                p[dim] = monkey_tail.back();
-                monkey_tail.pop_back();
-                monkey_count.back()++;
-            }else{ // found kid, go deeper in the graph
-                graph.push_back(slot);
-                used[slot] = true;
-                monkey_count.push_back(0);
-            }
-        }else{
-            monkey_count.pop_back();
-            int dim = monkey_count.back() / max_1d_kids;
-            p[dim] = monkey_tail.back();
-            monkey_tail.pop_back();
-            monkey_count.back()++;
+    std::vector<int> graph;
+    for(int i=0; i<points.getNumIndexes(); i++){
+        int const *p = points.getIndex(i);
+        bool differs = false, descends = true;
+        for(int j=0; j<num_dimensions and descends; j++){
+            if (p[j] != point[j]) differs = true;
+            descends = is_ancestor(point[j], p[j]);
         }
+        if (descends and differs) graph.push_back(i);
     }
 
     return graph;
